@@ -184,6 +184,11 @@ def replication_lemma(sym, tier):
 
     msgs = [m for m in L._send_append_entries() if m.context["metadata"]["destination"] == F.name]
     resp = _deliver(F, msgs[0])
+    # a client command may reach the leader while the AppendEntries round trip is in flight
+    submit_between = sym.bool("client_submit_while_in_flight")
+    if submit_between:
+        L.submit("L:client")
+        r.wit.add("submit_while_append_in_flight")
     for e in resp:
         if e.event_type == "RaftAppendEntriesResponse":
             _deliver(L, e)
@@ -214,7 +219,8 @@ def replication_lemma(sym, tier):
         if L._log.commit_index > ci:
             r.wit.add("commit_advanced")
             if L._log._entries[L._log.commit_index - 1].term != term:
-                r.bad("raft_commits_only_current_term_entries_directly", L._log.commit_index)
+                r.bad("raft_commits_only_current_term_entries_directly", {"commit_index": L._log.commit_index, "term": term,
+                      "leader_log": [e.term for e in L._log._entries], "match_index_F": L._match_index.get(F.name)})
     for node in (L, F):
         want = [e.command for e in node._log._entries[: node._last_applied]]
         got = node._state_machine.applied
@@ -247,7 +253,7 @@ HARNESSES = [
       outside=["sequences longer than 2 messages from one pre-state (covered inductively if R is inductive)", "5-node clusters"]),
     H(name="c11_replication_lemma", fn=replication_lemma, shape="I", budget=lambda tier: 900.0 if tier == "quick" else 3000.0,
       cubes=lambda tier: [{"L_len": a, "F_common": b, "F_stale_tail": c} for a in range(1, 3 if tier == "quick" else 4) for b in range(a + 1) for c in range(2)],
-      require=lambda tier: ["match_index_advanced", "commit_advanced", "follower_committed"], classify=classify,
+      require=lambda tier: ["match_index_advanced", "commit_advanced", "follower_committed", "submit_while_append_in_flight"], classify=classify,
       functions=["RaftNode._send_append_entries", "RaftNode._handle_append_entries", "RaftNode._handle_append_entries_response",
                  "RaftNode._try_advance_commit", "RaftNode._apply_committed", "Log.append/truncate_from/advance_commit/entries_after"],
       bounds=lambda tier: {"leader log": "<= %d entries, symbolic non-decreasing terms" % (2 if tier == "quick" else 3), "follower logs": "common prefix + optional stale entry of an older term",
